@@ -1035,4 +1035,214 @@ theorem uniq_tree (kvs : List (String × PV)) (hd : distinct (keysOf kvs) = true
         Bool.not_eq_true', List.contains_eq_mem, decide_eq_false_iff_not]
       exact ⟨⟨fun hm => hd.1 (mem_keysOf_convertDict hm), ih'.1⟩, uniq_convertValue x hu.1, ih'.2⟩
 
+
+/-! ### I'. upload positions are pairwise distinct -/
+
+theorem nodup_map_cons (s : Seg) (l : List (Path × Nat)) (h : (l.map (·.1)).Nodup) :
+    ((l.map (fun pu => (s :: pu.1, pu.2))).map (·.1)).Nodup := by
+  rw [List.map_map]
+  have : ((fun (x : Path × Nat) => x.1) ∘ fun pu => (s :: pu.1, pu.2)) = (fun q => s :: q) ∘ (fun x : Path × Nat => x.1) := rfl
+  rw [this, ← List.map_map]
+  rw [List.Nodup, List.pairwise_map]
+  exact List.Pairwise.imp (fun hne e => hne (List.cons.inj e).2) h
+
+mutual
+theorem upos_nodup (v : PV) (h : uniq v = true) : ((upos v).map (·.1)).Nodup := by
+  cases v with
+  | list xs => simp only [uniq] at h; simpa [upos] using uposList_nodup xs h 0
+  | dict kvs => simp only [uniq, Bool.and_eq_true] at h; simpa [upos] using uposKvs_nodup kvs h.1 h.2
+  | _ => simp [upos]
+theorem uposList_nodup (xs : List PV) (h : uniqList xs = true) (i : Nat) : ((uposList i xs).map (·.1)).Nodup := by
+  cases xs with
+  | nil => simp [uposList]
+  | cons x xs =>
+    simp only [uniqList, Bool.and_eq_true] at h
+    simp only [uposList, List.map_append]
+    rw [List.nodup_append]
+    refine ⟨nodup_map_cons _ _ (upos_nodup x h.1), uposList_nodup xs h.2 (i + 1), ?_⟩
+    intro a ha b hb e
+    subst e
+    simp only [List.mem_map, Prod.exists, exists_and_right, exists_eq_right] at ha hb
+    obtain ⟨u, p, u', _, hp⟩ := ha
+    obtain ⟨u2, hb⟩ := hb
+    obtain ⟨n, p2, y, hq, _, _⟩ := (uposList_at xs h.2 (i + 1) a u2).mp hb
+    rw [hq] at hp
+    simp at hp
+    omega
+theorem uposKvs_nodup (kvs : List (String × PV)) (hd : distinct (keysOf kvs) = true) (h : uniqKvs kvs = true) :
+    ((uposKvs kvs).map (·.1)).Nodup := by
+  cases kvs with
+  | nil => simp [uposKvs]
+  | cons kv rest =>
+    obtain ⟨k, x⟩ := kv
+    simp only [uniqKvs, Bool.and_eq_true] at h
+    simp only [keysOf, distinct, Bool.and_eq_true, Bool.not_eq_true', List.contains_eq_mem,
+      decide_eq_false_iff_not] at hd
+    simp only [uposKvs, List.map_append]
+    rw [List.nodup_append]
+    refine ⟨nodup_map_cons _ _ (upos_nodup x h.1), uposKvs_nodup rest hd.2 h.2, ?_⟩
+    intro a ha b hb e
+    subst e
+    simp only [List.mem_map, Prod.exists, exists_and_right, exists_eq_right] at ha hb
+    obtain ⟨u, p, u', _, hp⟩ := ha
+    obtain ⟨u2, hb⟩ := hb
+    obtain ⟨k', p2, y, hq, hmem, _⟩ := (uposKvs_at rest h.2 a u2).mp hb
+    rw [hq] at hp
+    simp at hp
+    exact hd.1 (hp.1.1 ▸ mem_keysOf_of_mem hmem)
+end
+
+/-! ### J. rendered paths are pairwise distinct (keys that are GraphQL names) -/
+
+def sfx : Path → List Char
+  | [] => []
+  | s :: r => '.' :: (s.str.toList ++ sfx r)
+
+theorem render_toList (base : String) (q : Path) : (render base q).toList = base.toList ++ sfx q := by
+  induction q generalizing base with
+  | nil => simp [render, sfx]
+  | cons s r ih =>
+    have : (".": String).toList = ['.'] := by decide
+    simp [render, sfx, ih, String.toList_append, this]
+
+theorem idx_str_toList (i : Nat) : (Seg.idx i).str.toList = Nat.toDigits 10 i := by
+  show (Nat.repr i).toList = _
+  exact Nat.toList_repr
+
+theorem seg_dotfree (s : Seg) (h : segOk s = true) : '.' ∉ s.str.toList := by
+  cases s with
+  | key k =>
+    simp only [segOk, keyOk, Bool.and_eq_true, Bool.not_eq_true', List.contains_eq_mem, decide_eq_false_iff_not] at h
+    exact h.1
+  | idx i =>
+    rw [idx_str_toList]
+    intro hm
+    have := Nat.isDigit_of_mem_toDigits (by decide) (by decide) hm
+    revert this; decide
+
+theorem toDigits_inj (i j : Nat) (h : Nat.toDigits 10 i = Nat.toDigits 10 j) : i = j := by
+  have := congrArg (fun l => Nat.ofDigitChars 10 l 0) h
+  simpa using this
+
+theorem seg_str_inj (s s' : Seg) (h : segOk s = true) (h' : segOk s' = true)
+    (e : s.str.toList = s'.str.toList) : s = s' := by
+  have key_idx : ∀ (k : String) (i : Nat), keyOk k = true → k.toList = Nat.toDigits 10 i → False := by
+    intro k i hk e
+    simp only [keyOk, Bool.and_eq_true, List.any_eq_true, Bool.not_eq_true'] at hk
+    obtain ⟨c, hc, hnd⟩ := hk.2
+    rw [e] at hc
+    have := Nat.isDigit_of_mem_toDigits (by decide) (by decide) hc
+    rw [hnd] at this; cases this
+  cases s with
+  | key k =>
+    cases s' with
+    | key k' => simp only [Seg.str] at e; rw [String.toList_inj.mp e]
+    | idx j => exact (key_idx k j h (by rw [← idx_str_toList]; exact e)).elim
+  | idx i =>
+    cases s' with
+    | key k' => exact (key_idx k' i h' (by rw [← idx_str_toList]; exact e.symm)).elim
+    | idx j =>
+      rw [idx_str_toList, idx_str_toList] at e
+      rw [toDigits_inj i j e]
+
+theorem dotfree_split (a a' R R' : List Char) (ha : '.' ∉ a) (ha' : '.' ∉ a')
+    (hR : R = [] ∨ ∃ t, R = '.' :: t) (hR' : R' = [] ∨ ∃ t, R' = '.' :: t)
+    (e : a ++ R = a' ++ R') : a = a' ∧ R = R' := by
+  induction a generalizing a' with
+  | nil =>
+    cases a' with
+    | nil => exact ⟨rfl, by simpa using e⟩
+    | cons c t =>
+      simp only [List.nil_append, List.cons_append] at e
+      rcases hR with h | ⟨t', h⟩
+      · rw [h] at e; cases e
+      · rw [h] at e
+        have : c = '.' := (List.cons.inj e).1.symm
+        exact absurd (by simp [this]) ha'
+  | cons c t ih =>
+    cases a' with
+    | nil =>
+      simp only [List.nil_append, List.cons_append] at e
+      rcases hR' with h | ⟨t', h⟩
+      · rw [h] at e; cases e
+      · rw [h] at e
+        have : c = '.' := (List.cons.inj e).1
+        exact absurd (by simp [this]) ha
+    | cons c' t' =>
+      simp only [List.cons_append, List.cons.injEq] at e
+      have := ih t' (fun hm => ha (by simp [hm])) (fun hm => ha' (by simp [hm])) e.2
+      exact ⟨by rw [e.1, this.1], this.2⟩
+
+theorem sfx_shape (q : Path) : sfx q = [] ∨ ∃ t, sfx q = '.' :: t := by
+  cases q with
+  | nil => exact Or.inl rfl
+  | cons s r => exact Or.inr ⟨_, rfl⟩
+
+theorem sfx_inj (q q' : Path) (h : pathOk q = true) (h' : pathOk q' = true) (e : sfx q = sfx q') : q = q' := by
+  induction q generalizing q' with
+  | nil =>
+    cases q' with
+    | nil => rfl
+    | cons s r => simp [sfx] at e
+  | cons s r ih =>
+    cases q' with
+    | nil => simp [sfx] at e
+    | cons s' r' =>
+      simp only [pathOk, Bool.and_eq_true] at h h'
+      simp only [sfx, List.cons.injEq, true_and] at e
+      have := dotfree_split _ _ _ _ (seg_dotfree s h.1) (seg_dotfree s' h'.1) (sfx_shape r) (sfx_shape r') e
+      rw [seg_str_inj s s' h.1 h'.1 this.1, ih r' h.2 h'.2 this.2]
+
+theorem render_inj (base : String) (q q' : Path) (h : pathOk q = true) (h' : pathOk q' = true)
+    (e : render base q = render base q') : q = q' := by
+  have := congrArg String.toList e
+  rw [render_toList, render_toList] at this
+  exact sfx_inj q q' h h' (List.append_cancel_left this)
+
+mutual
+theorem upos_pathOk (v : PV) (h : keysOk v = true) : ∀ pu ∈ upos v, pathOk pu.1 = true := by
+  cases v with
+  | list xs => simp only [keysOk] at h; simpa [upos] using uposList_pathOk xs h 0
+  | dict kvs => simp only [keysOk] at h; simpa [upos] using uposKvs_pathOk kvs h
+  | upload i => simp [upos, pathOk]
+  | _ => simp [upos]
+theorem uposList_pathOk (xs : List PV) (h : keysOkList xs = true) (i : Nat) :
+    ∀ pu ∈ uposList i xs, pathOk pu.1 = true := by
+  cases xs with
+  | nil => simp [uposList]
+  | cons x xs =>
+    simp only [keysOkList, Bool.and_eq_true] at h
+    intro pu hm
+    simp only [uposList, List.mem_append, List.mem_map] at hm
+    rcases hm with ⟨pu', hm, rfl⟩ | hm
+    · simp [pathOk, segOk, upos_pathOk x h.1 pu' hm]
+    · exact uposList_pathOk xs h.2 (i + 1) pu hm
+theorem uposKvs_pathOk (kvs : List (String × PV)) (h : keysOkKvs kvs = true) :
+    ∀ pu ∈ uposKvs kvs, pathOk pu.1 = true := by
+  cases kvs with
+  | nil => simp [uposKvs]
+  | cons kv rest =>
+    obtain ⟨k, x⟩ := kv
+    simp only [keysOkKvs, Bool.and_eq_true] at h
+    intro pu hm
+    simp only [uposKvs, List.mem_append, List.mem_map] at hm
+    rcases hm with ⟨pu', hm, rfl⟩ | hm
+    · simp [pathOk, segOk, h.1.1, upos_pathOk x h.1.2 pu' hm]
+    · exact uposKvs_pathOk rest h.2 pu hm
+end
+
+
+theorem rendered_nodup (base : String) (v : PV) (hu : uniq v = true) (hk : keysOk v = true) :
+    ((upos v).map (fun pu => render base pu.1)).Nodup := by
+  have h1 := upos_nodup v hu
+  have h2 := upos_pathOk v hk
+  have : (upos v).map (fun pu => render base pu.1) = ((upos v).map (·.1)).map (render base) := by
+    simp [List.map_map, Function.comp_def]
+  rw [this, List.Nodup, List.pairwise_map]
+  apply List.Pairwise.imp_of_mem _ h1
+  intro a b ha hb hne e
+  obtain ⟨pa, hpa, rfl⟩ := List.mem_map.mp ha
+  obtain ⟨pb, hpb, rfl⟩ := List.mem_map.mp hb
+  exact hne (render_inj base _ _ (h2 pa hpa) (h2 pb hpb) e)
+
 end Ariadne.BaseClient
